@@ -3,6 +3,7 @@
    denominator; hexadecimal, arbitrary size) or [-]HEX.
      COV    D N <X N*D>                 -> OK <C D*D> | DIM site got want   (current compute_covariance)
      COVOLD D N <X N*D>                 -> OK <C D*D>                       (as shipped before fix F8)
+     COVEXP D N <X N*D>                 -> OK <C D*D>                       (expanded form, fix F8 .. fix F49)
      MEAN   D N <X N*D>                 -> OK <m D>
      SEEN dense|randomized D <M D*D>    -> OK <S D*D>        (what the solver front-end sees of M)
      SCOVD N D tol <X N*D> <C D*D>      -> T | F | ILL       (cov_seen_dense_b)
@@ -96,13 +97,14 @@ let () =
         let out =
           try
             match toks.(0) with
-            | "COV" | "COVOLD" | "MEAN" ->
+            | "COV" | "COVOLD" | "COVEXP" | "MEAN" ->
               let d = int_ () in let n = int_ () in
               if d < 0 || n < 0 || d > 4096 || n > 100000 then "ERR size" else
               let x = mat n d in
               (match toks.(0) with
                | "COV" -> show_pres show_mat (c06_cov (nn d) x)
                | "COVOLD" -> show_pres show_mat (c06_cov_old (nn d) x)
+               | "COVEXP" -> show_pres show_mat (c06_cov_expanded (nn d) x)
                | _ -> show_pres show_vec (c06_mean (nn d) x))
             | "SEEN" ->
               let which = next () in let d = int_ () in let m = mat d d in
